@@ -278,6 +278,11 @@ def pipeline_section(ctx):
     bad = copy.deepcopy(good)
     bad['sink'] = bad['sink'] + bad['sink']
     ctx.negative_control('pipeline: a delivery duplicated in a recorded case', 'delivered' in pipesys.judge(ctx, [bad])[0])
+  # the periodic re-read of the two rule files of the pipeline (Reload.tla): the aggregation rules decide what is
+  # aggregated at all (a rule set that is not the file's breaks the property), the rewrite rules are reported as drift
+  from . import reloadsys
+  reloadsys.check(ctx, 'aggrules')
+  reloadsys.check(ctx, 'rewrite', as_drift=True)
 
 
 def replay(ctx, rp):
